@@ -2,6 +2,7 @@ package main
 
 import (
 	"bytes"
+	"io"
 	"encoding/json"
 	"fmt"
 	"os"
@@ -47,6 +48,7 @@ type termBeh struct {
 	Dev    bool       `json:"dev"`
 	Hook   string     `json:"hook"`
 	Core   string     `json:"core"`
+	Msg    string     `json:"msg"`
 	Ran    string     `json:"ran"`
 	Leaves []termLeaf `json:"leaves"`
 	Final  []termSnap `json:"final"`
@@ -153,7 +155,21 @@ func (s *termSink) Sync() error {
 	return nil
 }
 
-const termMsg = "final-message \"quoted\""
+const termMsgText = "final-message \"quoted\""
+
+// termNeedle: how the case's message appears in the JSON line
+func termNeedle(b termBeh) string {
+	q, _ := json.Marshal(termMsgOf(b))
+	return `"m":` + string(q)
+}
+
+// termMsgOf: the message of the case (an empty message must terminate just the same)
+func termMsgOf(b termBeh) string {
+	if b.Msg == "empty" {
+		return ""
+	}
+	return termMsgText
+}
 
 type termWorld struct {
 	core    zapcore.Core
@@ -185,7 +201,7 @@ func termBuild(b termBeh, mkSink func(i int) zapcore.WriteSyncer) *termWorld {
 			ws = bw
 		}
 		var en zapcore.LevelEnabler = zapcore.DebugLevel
-		if !lf.Acc && b.Core != "sampled-out" && b.Core != "inc-off" {
+		if !lf.Acc && b.Core != "sampled-out" && b.Core != "inc-off" && b.Core != "tee-on-sampledout" {
 			en = off
 		}
 		return zapcore.NewCore(termEnc(), ws, en)
@@ -206,6 +222,9 @@ func termBuild(b termBeh, mkSink func(i int) zapcore.WriteSyncer) *termWorld {
 		w.core = zapcore.NewTee(leaf(0), leaf(1))
 	case "sampled-out":
 		w.core = zapcore.NewSamplerWithOptions(leaf(0), time.Hour, 0, 0)
+	case "tee-on-sampledout":
+		// an audit core that takes everything, then a core behind a sampler that drops this entry
+		w.core = zapcore.NewTee(leaf(0), zapcore.NewSamplerWithOptions(leaf(1), time.Hour, 0, 0))
 	case "hooked-on":
 		w.core = zapcore.RegisterHooks(leaf(0), func(zapcore.Entry) error { return nil })
 	case "inc-off":
@@ -243,7 +262,7 @@ func termOptions(b termBeh, custom zapcore.CheckWriteHook) []zap.Option {
 }
 
 // termCall performs the logging call of front end fe at level lvl.
-func termCall(lg *zap.Logger, fe string, lvl zapcore.Level) {
+func termCall(lg *zap.Logger, fe string, lvl zapcore.Level, termMsg string) {
 	i := int(lvl) - int(zapcore.DPanicLevel)
 	s := lg.Sugar()
 	switch fe {
@@ -283,13 +302,21 @@ func termCall(lg *zap.Logger, fe string, lvl zapcore.Level) {
 }
 
 type termHook struct {
-	ran  int
-	snap func()
+	ran   int
+	snap  func()
+	other *zap.Logger
+	saw   string
+	sawL  zapcore.Level
 }
 
 func (h *termHook) OnWrite(ce *zapcore.CheckedEntry, _ []zapcore.Field) {
 	h.ran++
 	h.snap()
+	// a crash reporter may log (through an unrelated logger) before it looks at the entry it was given
+	if h.other != nil {
+		h.other.Info("terminal hook invoked, flushing")
+	}
+	h.saw, h.sawL = ce.Message, ce.Level
 }
 
 func replayC06(c *Ctx, b termBeh, child bool) (finds []Finding) {
@@ -313,7 +340,7 @@ func replayC06(c *Ctx, b termBeh, child bool) (finds []Finding) {
 			ts.mu.Lock()
 			has := false
 			for _, l := range ts.lines {
-				if strings.Contains(l, `final-message \"quoted\"`) && strings.HasSuffix(l, "\n") {
+				if strings.Contains(l, termNeedle(b)) && strings.HasSuffix(l, "\n") {
 					has = true
 				}
 			}
@@ -321,7 +348,7 @@ func replayC06(c *Ctx, b termBeh, child bool) (finds []Finding) {
 			ts.mu.Unlock()
 		}
 	}
-	hook := &termHook{snap: snapshot}
+	hook := &termHook{snap: snapshot, other: zap.New(zapcore.NewCore(termEnc(), zapcore.AddSync(io.Discard), zapcore.DebugLevel))}
 	lg := zap.New(w.core, append(termOptions(b, hook), zap.ErrorOutput(zapcore.AddSync(&bytes.Buffer{})))...)
 	var recovered interface{}
 	returned := false
@@ -332,7 +359,7 @@ func replayC06(c *Ctx, b termBeh, child bool) (finds []Finding) {
 				snapshot()
 			}
 		}()
-		termCall(lg, b.Fe, zapcore.Level(b.Lvl))
+		termCall(lg, b.Fe, zapcore.Level(b.Lvl), termMsgOf(b))
 		returned = true
 	}()
 	if s, ok := recovered.(string); ok && strings.HasPrefix(s, "HARNESS") {
@@ -354,11 +381,14 @@ func replayC06(c *Ctx, b termBeh, child bool) (finds []Finding) {
 		if recovered != nil {
 			add("C06/panic", "%s: panicked with %v although a custom hook is configured", desc, recovered)
 		}
+		if hook.ran == 1 && (hook.saw != termMsgOf(b) || hook.sawL != zapcore.Level(b.Lvl)) {
+			add("C06/hook-sees-other-entry", "%s: the terminal hook was handed an entry reading %v %q; it logged %v %q", desc, hook.sawL, hook.saw, zapcore.Level(b.Lvl), termMsgOf(b))
+		}
 	case "panic":
 		if recovered == nil {
 			add("C06/terminal-not-run", "%s: the call returned normally; the panic action did not run", desc)
-		} else if fmt.Sprint(recovered) != termMsg {
-			add("C06/panic-value", "%s: panic value %q does not carry the message %q", desc, fmt.Sprint(recovered), termMsg)
+		} else if fmt.Sprint(recovered) != termMsgOf(b) {
+			add("C06/panic-value", "%s: panic value %q does not carry the message %q", desc, fmt.Sprint(recovered), termMsgOf(b))
 		}
 		if hook.ran != 0 {
 			add("C06/terminal-ran-unexpectedly", "%s: custom hook ran for hook setting %s", desc, b.Hook)
@@ -437,13 +467,13 @@ func replayC06Child(c *Ctx, b termBeh, desc string) (finds []Finding) {
 	case "panic":
 		if strings.Contains(o, "C06-RETURNED") {
 			add("C06/terminal-not-run", "%s: control returned to the caller; the panic action did not run", desc)
-		} else if code != 2 || !strings.Contains(o, "panic: ") || !strings.Contains(o, "final-message") {
+		} else if code != 2 || !strings.Contains(o, "panic: ") || !strings.Contains(o, strings.SplitN(termMsgOf(b), " ", 2)[0]) {
 			add("C06/panic-value", "%s: process ended with status %d and output %.300s; want a panic carrying the message", desc, code, o)
 		}
 	}
 	for i, lf := range b.Leaves {
 		data, _ := os.ReadFile(filepath.Join(dir, fmt.Sprintf("sink%d.log", i)))
-		has := strings.Contains(string(data), `final-message \"quoted\"`) && strings.HasSuffix(string(data), "\n")
+		has := strings.Contains(string(data), termNeedle(b)) && strings.HasSuffix(string(data), "\n")
 		if lf.Acc && !lf.Fail && !has {
 			add("C06/not-written-before-terminal", "%s: after the process ended, the file of accepting core %d does not contain the complete final line (content %q)", desc, i, string(data))
 		}
@@ -470,7 +500,7 @@ func childC06(args []string) {
 		return f
 	})
 	lg := zap.New(w.core, termOptions(b, nil)...)
-	termCall(lg, b.Fe, zapcore.Level(b.Lvl))
+	termCall(lg, b.Fe, zapcore.Level(b.Lvl), termMsgOf(b))
 	fmt.Println("C06-RETURNED")
 	os.Exit(0)
 }
